@@ -77,6 +77,7 @@ class AsyncWorld:
             evs += [("conn", "ok"), ("conn", "refuse")]
             if self.kind == "tcp":
                 evs.append(("conn", "stall"))
+                evs.append(("conn", "unreachable"))  # an OSError that is not a ConnectionError (network down, DNS)
         if self.loop.pending_timers():
             evs.append(("timer",))
         link = self.live_link()
@@ -115,7 +116,7 @@ class AsyncWorld:
                     self.stalled.append(fut)
                     self.attempt_results.append((loop.time(), "stalled"))
                 else:
-                    loop.answer_connection("ok" if ev[1] == "ok" else "refuse")
+                    loop.answer_connection(ev[1])
                     self.attempt_results.append((loop.time(), ev[1]))
             elif kind == "timer":
                 loop.fire_next_timer()
